@@ -6,6 +6,14 @@ transition runs the real instruction classes on a real stack next to the referen
 tuples ordered by the reference total order); results and observations (MEM, GET, SIZE, ITER order, MAP) must coincide,
 which implies every reachable collection is strictly sorted and duplicate-free.  Literals PUSH (set|map) {...} for
 every key sequence of length <= 3 (with repetition) must be accepted iff strictly sorted.
+
+Construction from PYTHON objects (from_python_object on a dict / list / set: storage and parameter encoding) is a further
+construction path: for every key type, every permutation of every subset of the universe (the insertion order of the dict /
+list) must give the reference sorted dictionary, and MEM / GET / SIZE / ITER / MAP / UPDATE on the constructed collection
+must agree with it.  Universes include keys whose Python-object order is not the Michelson order (base58 text of mixed
+kinds, inferred `or` branch names, None next to text) and keys with two Python presentations (bytes / hex text, int /
+RFC 3339 text), mixed in one object.  A Python object naming one key twice may be rejected or merged (no verdict) but never
+yield a collection with duplicate keys.
 """
 from __future__ import annotations
 
@@ -24,13 +32,21 @@ LEVEL = 'model_checking'
 RULE = ('state = contents of one set / one map; transitions = UPDATE, GET_AND_UPDATE, GET, MEM, SIZE, ITER{CONS}, MAP{..} with every key of '
         'the universe and every value; closure of the reachable space (no depth bound); plus every literal of <=3 keys; key universes include '
         'composite keys (option / or / pair, nested up to 3 levels) whose deciding component is a falsy Python object next to None / the other branch; '
-        'non-trivial = (collection type, state with >=2 entries, operation) or one literal key sequence')
+        'construction from a Python dict / list / set in every insertion order (every permutation of every subset of the universe; for keys with a '
+        'second Python presentation - hex text, RFC 3339 text - every permutation of <=3 (key, presentation) entries incl. one key given twice), '
+        'followed by every operation on the constructed collection; '
+        'non-trivial = (collection type, state with >=2 entries, operation) or one literal key sequence or one Python insertion history of >=2 entries')
 BOUND = {'quick': '7 plain key types + 12 composite key types with empty / False / 0 / Unit / None payloads (option string|bytes|bool|nat|unit, option (option string), '
                   'or string bytes, or bool (option bool), pair string bytes, pair (option bool) int, pair (pair nat (option bytes)) nat, pair int (or (option string) unit)), '
                   '|K|<=4: all 2^|K| sets and 3^|K| maps (nat values {0,1}) per type, plus maps with string / bool values (falsy Python objects) for 3 key types; '
-                  'every operation in every state; literals of <=3 keys',
-         'thorough': '13 plain key types with the three value types each + the 12 composite falsy-payload key types, |K|<=4, literals of <=4 keys'}
-ASSUMPTIONS = ['the reference order of mc.ref.mtypes (validated by C03 against the statement\'s rules)']
+                  '+ 5 key types whose Python-object order differs from the Michelson order (key, pair address nat, option address, or string address, timestamp); '
+                  'every operation in every state; literals of <=3 keys; per shard all 65 insertion orders of Python dicts / lists / sets over subsets of K '
+                  '(+ 380 mixed-presentation histories of <=3 entries for types containing bytes / timestamp; lists naming an element twice), every operation on each result',
+         'thorough': '13 plain key types with the three value types each + the 12 composite falsy-payload key types + 4 Python-order key types, |K|<=4, '
+                     'literals of <=4 keys, the same Python-object insertion histories for every shard'}
+ASSUMPTIONS = ['the reference order of mc.ref.mtypes (validated by C03 against the statement\'s rules)',
+               'the Python presentation of a key (flat tuples for nested pairs, (inferred branch name, value) for `or`, None / payload for option) '
+               'is the one pytezos documents; keys without a presentation of their own (Some None of a nested option) are skipped']
 LEVEL_TEXT = ('the reachable state space per key type is finite and is explored completely with every operation applied in every state; '
               'assurance is exhaustive for the key universes, which are chosen so that naive orders disagree with the Tezos order')
 
